@@ -205,6 +205,8 @@ type clientEngine struct {
 	phase         int
 	callers       []*verifrt.Task
 	healRounds    int
+	clockProgress int
+	clockIdle     int
 	marathon      bool
 	reentPct      int
 	reentered     int
@@ -234,7 +236,7 @@ func (e *clientEngine) NonTrivial() bool { return e.r.Switches >= 2 && len(e.txs
 func (e *clientEngine) HistoryHash() uint64 { return hashName(strings.Join(e.opsDesc, " ")) }
 
 func (e *clientEngine) Describe() any {
-	return map[string]any{"config": e.cfgDesc, "ops": e.opsDesc}
+	return map[string]any{"config": e.cfgDesc, "ops": capList(e.opsDesc, 80)}
 }
 
 func (e *clientEngine) fail(tx *cTx, prop, class, f string, a ...any) {
@@ -1590,6 +1592,16 @@ func (e *clientEngine) Env() []EnvEvent {
 			var d time.Duration
 			if e.phase == phHeal {
 				e.healClock++
+			}
+			// chaos must not spin on the clock: 60 clock events in a row without
+			// any progress (write, handler, return) means the rest is for heal
+			if p := e.progress(); p == e.clockProgress {
+				e.clockIdle++
+				if e.clockIdle > 60 && e.phase == phChaos {
+					e.phase = phHeal
+				}
+			} else {
+				e.clockProgress, e.clockIdle = p, 0
 			}
 			dl, ok := e.earliestDeadline()
 			k := r.Choose(7, "clock-kind")
